@@ -25,6 +25,8 @@ def _explicit(case):
 def _act_vars(act):
     if act["k"] == "obs":
         return step_reads(act["step"])
+    if act["k"] == "ballast":
+        return []
     return [act["v"]]
 
 
